@@ -40,11 +40,14 @@ THEOREMS = [
     'Pyiga.Props.C14.p2g_matrix_orthonormal',
     'Pyiga.Props.C14.assemble_accumulate',
     'Pyiga.Props.C14.assemble_accumulate_rhs',
+    'Pyiga.Props.C14.split_assembly_entry',
+    'Pyiga.Props.C14.split_assembly',
+    'Pyiga.Props.C14.split_assembly_rhs',
     'Pyiga.Props.C14.unshared_patch_asCoded_raises',
     'Pyiga.Props.C14.p2gIdx_ok',
     'Pyiga.Props.C14.globOf_inv',
 ]
-MODULES = ['Pyiga.Model.Index', 'Pyiga.Model.Slice', 'Pyiga.Model.Multipatch', 'Pyiga.Proofs.Multipatch', 'Pyiga.Proofs.MultipatchMat', 'Pyiga.Proofs.MultipatchSlice', 'Pyiga.Proofs.MultipatchPhases', 'Pyiga.Props.C14']
+MODULES = ['Pyiga.Model.Index', 'Pyiga.Model.Slice', 'Pyiga.Model.Multipatch', 'Pyiga.Proofs.Multipatch', 'Pyiga.Proofs.MultipatchMat', 'Pyiga.Proofs.MultipatchSlice', 'Pyiga.Proofs.MultipatchPhases', 'Pyiga.Proofs.MultipatchSplit', 'Pyiga.Props.C14']
 
 KEY_MERGE = 'join meets two existing classes'
 KEY_UNSHARED = 'patch without shared dofs'
@@ -522,6 +525,204 @@ def phases_stream(ctx):
     ctx.extra['requests'] = ctx.extra.get('requests', 0) + len(req)
 
 
+# ----------------------------------------------------------------------------- conforming split stream
+
+def _make_axis(rng, p, nseg):
+    """open knot vector of degree p on [0,1]: `nseg` segments separated by knots of multiplicity p (C^0 there, so the
+    space splits conformingly), inside the segments further knots of multiplicity 1..p.  All knots dyadic."""
+    from pyiga import bspline
+    per = int(rng.integers(1, 4))
+    nb = nseg * per
+    cuts = [k * per for k in range(1, nseg)]
+    kv = [0.0] * (p + 1)
+    for j in range(1, nb):
+        if j in cuts:
+            kv += [j / nb] * p
+        elif rng.random() < 0.7:
+            kv += [j / nb] * int(rng.integers(1, p + 1))
+    kv += [1.0] * (p + 1)
+    return bspline.KnotVector(np.array(kv), p), [j / nb for j in cuts]
+
+
+def _split_axis(kv, cuts):
+    """[(sub knot vector, index of its first dof in the undivided space)]"""
+    from pyiga import bspline
+    p, k = kv.p, kv.kv
+    first = [int(np.searchsorted(k, t, side='left')) for t in cuts]     # first position of each cut knot
+    out = []
+    for s, e in zip([None] + first, first + [None]):
+        lo = 0 if s is None else s
+        seg = k[lo:] if e is None else np.concatenate((k[lo:e + p], [k[e]]))
+        if s is not None:
+            seg = np.concatenate(([k[s]], seg))
+        out.append((bspline.KnotVector(np.array(seg), p), 0 if s is None else s - 1))
+    return out
+
+
+def split_stream(ctx):
+    """'Assembling over a conforming decomposition gives, up to the renumbering, the system of the undivided domain'
+    (model-free, float-level evidence; the algebraic statement is Lean's `split_assembly`).
+    A single-patch tensor-product B-spline space (2-D / 3-D, degrees 1-3, isoparametric affine or curved geometry) is
+    split along interior knots of multiplicity p into 2-4 patches (strips, 2x2 grids): sub knot vectors and coefficient
+    sub-blocks, an exact restriction.  The patches are glued by automatch and by manual joins in random order; mass /
+    stiffness + load vector come from Multipatch.assemble_system with the shipped assemblers, and are compared with the
+    single-patch system under the renumbering obtained by matching Greville points.  Tolerance (DESIGN 1): every
+    entry is a quadrature sum, bounded termwise by the mass / stiffness diagonals (Cauchy-Schwarz), so
+    |diff[g,h]| <= c * nops * 2^-53 * kappa(J)^2 * (D[g] + D[h]) / 2 with D the diagonal of the single-patch matrix."""
+    from pyiga import assemble, assemblers, bspline
+    import scipy.sparse
+    rng = ctx.rng
+    ncase = 16 if ctx.tier == 'quick' else 150
+    nfail = 0
+    worst = 0.0          # largest observed |diff| / tolerance (evidence that the bound is neither tight nor vacuous)
+    for case in range(ncase):
+        dim = 2 if rng.random() < 0.65 else 3
+        ps = [int(rng.integers(1, 4)) for _ in range(dim)]
+        nsegs = [1] * dim
+        if rng.random() < 0.5:
+            nsegs[int(rng.integers(0, dim))] = int(rng.integers(2, 5))          # strip of 2-4 patches
+        else:
+            a, b = [int(v) for v in rng.permutation(dim)[:2]]
+            nsegs[a] = nsegs[b] = 2                                           # 2 x 2 grid
+        axes = [_make_axis(rng, ps[a], nsegs[a]) for a in range(dim)]
+        kvs = tuple(ax[0] for ax in axes)
+        N = tuple(int(kv.numdofs) for kv in kvs)
+        grev = np.stack(np.meshgrid(*[kv.greville() for kv in kvs], indexing='ij'), axis=-1)
+        coeffs = grev[..., ::-1].copy()                                       # identity map (last axis = x)
+        gkind = ['identity', 'affine', 'curved'][int(rng.integers(0, 3))]
+        if gkind != 'identity':
+            T = np.eye(dim) + 0.3 * rng.uniform(-1, 1, size=(dim, dim))
+            coeffs = coeffs @ T.T + rng.uniform(-1, 1, size=dim)
+        if gkind == 'curved':
+            h = min(1.0 / n for n in N)
+            coeffs = coeffs + 0.2 * h * rng.uniform(-1, 1, size=coeffs.shape)
+        geo = bspline.BSplineFunc(kvs, np.ascontiguousarray(coeffs))
+        pieces = [_split_axis(kv, cuts) for (kv, cuts) in axes]
+        patches, cells = [], []
+        for combo in itertools.product(*[range(len(pc)) for pc in pieces]):
+            kvp = tuple(pieces[a][c][0] for a, c in enumerate(combo))
+            ofs = tuple(pieces[a][c][1] for a, c in enumerate(combo))
+            sl = tuple(slice(o, o + int(kv.numdofs)) for o, kv in zip(ofs, kvp))
+            patches.append((kvp, bspline.BSplineFunc(kvp, np.ascontiguousarray(coeffs[sl])))); cells.append((combo, ofs))
+        # manual joins: grid adjacency, random order
+        cid = {c[0]: k for k, c in enumerate(cells)}
+        joins = []
+        for combo, _ in cells:
+            for a in range(dim):
+                nb_ = list(combo); nb_[a] += 1
+                if tuple(nb_) in cid:
+                    joins.append((cid[combo], (a, 1), cid[tuple(nb_)], (a, 0)))
+        joins = [joins[int(i)] for i in rng.permutation(len(joins))]
+        fc = rng.integers(-2, 3, size=dim + 1).astype(float)
+        f = lambda *X, fc=fc: fc[0] + sum(c * x for c, x in zip(fc[1:], X))    # parametric coordinates
+        gd = rng.integers(-2, 3, size=dim + 1).astype(float)
+        gfun = lambda *X, gd=gd: gd[0] + sum(c * x for c, x in zip(gd[1:], X))  # physical coordinates (Dirichlet data)
+        suffix = '%dD' % dim
+        Mass, Stiff, Load = [getattr(assemblers, nm + suffix) for nm in ('MassAssembler', 'StiffnessAssembler', 'L2FunctionalAssembler')]
+        key = ('split', dim, tuple(ps), tuple(nsegs), gkind, tuple(kv.kv.tolist() for kv in kvs))
+        ctx.case(key, nontrivial=True)
+        ctx.count('split dim=%d %s' % (dim, gkind)); ctx.count('split patches', len(patches))
+        replay = {'dim': dim, 'degrees': ps, 'knots': [kv.kv.tolist() for kv in kvs], 'segments_per_axis': nsegs, 'geometry': gkind,
+                  'geometry_coeffs': np.asarray(coeffs).tolist(), 'f(parametric) coefficients': fc.tolist(), 'dirichlet g(physical) coefficients': gd.tolist(),
+                  'manual_join_order': [list(map(list, (j[1], j[3]))) + [j[0], j[2]] for j in joins],
+                  'how': 'patch = sub knot vectors (cut knots repeated p+1 times) + coefficient sub-block of the isoparametric geometry; '
+                         'Multipatch(patches, automatch=True) and manual join_boundaries in the given order; assemble_system(MassAssembler/StiffnessAssembler, '
+                         'L2FunctionalAssembler, args={f}); compare with assemble(...) on the undivided space after renumbering by Greville points'}
+        bad = None
+        try:
+            ntot = int(np.prod(N))
+            A1 = {nm: assemble.assemble(cls, kvs, args={'geo': geo}).toarray() for nm, cls in (('mass', Mass), ('stiffness', Stiff))}
+            b1 = np.asarray(assemble.assemble(Load, kvs, args={'geo': geo, 'f': f})).ravel()
+            # condition of the Jacobian (enters the stiffness terms twice)
+            gridj = [np.linspace(kv.support()[0], kv.support()[1], 5) for kv in kvs]
+            J = geo.grid_jacobian(gridj).reshape(-1, dim, dim)
+            kappa = float(max(np.linalg.cond(Jm) for Jm in J))
+            nops = 64 * int(np.prod([(p_ + 1) ** 2 for p_ in ps]))
+            u_ = 2.0 ** -53
+            full_grev = {tuple(np.round(g_, 12)): i for i, g_ in enumerate(grev.reshape(-1, dim))}
+            bc1 = assemble.compute_dirichlet_bcs(kvs, geo, ('all', gfun))
+            for mode in ('automatch', 'manual'):
+                if mode == 'automatch':
+                    M = assemble.Multipatch(patches, automatch=True)
+                else:
+                    M = assemble.Multipatch(patches, automatch=False)
+                    for j in joins:
+                        M.join_boundaries(*j)
+                    M.finalize()
+                nd = int(M.numdofs)
+                if nd != ntot:
+                    bad = '%s: numdofs == %d, the undivided space has %d dofs' % (mode, nd, ntot); break
+                # renumbering by Greville points (parametric; the split keeps the parameter intervals)
+                g_of = np.full(ntot, -1)
+                for q, (kvp, _) in enumerate(patches):
+                    idx = np.asarray(M.patch_to_global_idx(q))
+                    gp = np.stack(np.meshgrid(*[kv.greville() for kv in kvp], indexing='ij'), axis=-1).reshape(-1, dim)
+                    for i, g_ in enumerate(gp):
+                        I = full_grev.get(tuple(np.round(g_, 12)))
+                        if I is None:
+                            raise AssertionError('harness: Greville point of a patch dof not found in the undivided space')
+                        if g_of[I] not in (-1, idx[i]):
+                            bad = '%s: the pieces of undivided basis function %d get different global indices %d, %d' % (mode, I, g_of[I], idx[i])
+                        g_of[I] = idx[i]
+                if bad:
+                    break
+                if sorted(g_of.tolist()) != list(range(nd)):
+                    bad = '%s: Greville matching is not a bijection onto range(numdofs)' % mode; break
+                P = scipy.sparse.coo_matrix((np.ones(ntot), (g_of, np.arange(ntot))), shape=(nd, ntot)).tocsr()
+                massdiag = None
+                for nm, cls in (('mass', Mass), ('stiffness', Stiff)):
+                    A, b = M.assemble_system(cls, Load, args={'f': f})
+                    A = np.asarray(A.toarray())
+                    want = (P @ scipy.sparse.csr_matrix(A1[nm]) @ P.T).toarray()
+                    D = np.abs(np.diag(want))
+                    fac = kappa ** 2 if nm == 'stiffness' else kappa
+                    tol = 8 * nops * u_ * fac * 0.5 * (D[:, None] + D[None, :])
+                    err = np.abs(A - want)
+                    worst = max(worst, float(np.max(err / np.maximum(tol, 1e-300))))
+                    if np.any(err > tol):
+                        g, h = np.unravel_index(np.argmax(err - tol), err.shape)
+                        bad = ('%s: %s matrix of the split differs from the undivided one at glued entry (%d,%d): %r vs %r (tolerance %.2e from the '
+                               'termwise bound)' % (mode, nm, g, h, float(A[g, h]), float(want[g, h]), float(tol[g, h])))
+                        break
+                    if nm == 'mass':
+                        rows = np.abs(want).sum(axis=1)            # = integral of N_g |det J| (partition of unity)
+                        wantb = P @ b1
+                        tolb = 8 * nops * u_ * kappa * float(np.abs(fc).sum()) * rows
+                        if np.any(np.abs(np.asarray(b) - wantb) > tolb):
+                            g = int(np.argmax(np.abs(np.asarray(b) - wantb) - tolb))
+                            bad = '%s: load vector differs at glued dof %d: %r vs %r' % (mode, g, float(b[g]), float(wantb[g])); break
+                if bad:
+                    break
+                # Dirichlet data on the outer boundary: multipatch vs single patch (indices exactly, values to interpolation accuracy)
+                outer = []
+                for q, (combo, _) in enumerate(cells):
+                    for a in range(dim):
+                        if combo[a] == 0:
+                            outer.append((q, (a, 0), gfun))
+                        if combo[a] == len(pieces[a]) - 1:
+                            outer.append((q, (a, 1), gfun))
+                bi, bv = M.compute_dirichlet_bcs(outer)
+                want_i = np.sort(g_of[np.asarray(bc1[0])])
+                if [int(v) for v in bi] != [int(v) for v in want_i]:
+                    bad = '%s: compute_dirichlet_bcs on the outer faces addresses dofs %s, the undivided boundary dofs are %s' % (
+                        mode, [int(v) for v in bi][:12], [int(v) for v in want_i][:12]); break
+                v1 = dict(zip((int(g_of[i]) for i in bc1[0]), (float(v) for v in bc1[1])))
+                scale = 1.0 + float(np.abs(gd).sum()) * (1.0 + float(np.abs(coeffs).max()))
+                if any(abs(float(v) - v1[int(i)]) > 1e-9 * scale for i, v in zip(bi, bv)):
+                    bad = '%s: Dirichlet values differ from the single-patch values by more than 1e-9 * scale' % mode; break
+        except AssertionError:
+            raise
+        except Exception as ex:
+            bad = 'implementation raised %s: %s' % (type(ex).__name__, str(ex)[:160])
+        if bad is not None:
+            nfail += 1
+            if nfail <= 2:
+                ctx.violation('mp-split', 'conforming split != undivided domain: ' + bad, dict(replay, oracle=bad), True)
+    ctx.extra['split_max_err_over_tol'] = worst
+    ctx.obligation('split stream: %d conforming decompositions (automatch and manual joins) reproduce the undivided mass/stiffness/load/Dirichlet data' % ncase,
+                   nfail == 0, '%d failing decompositions' % nfail)
+
+
 # ----------------------------------------------------------------------------- geometric stream
 
 def detect_stream(ctx):
@@ -822,4 +1023,5 @@ def run(ctx):
     ctx.count('slice requests', len(sreq))
 
     phases_stream(ctx)
+    split_stream(ctx)
     detect_stream(ctx)
